@@ -25,9 +25,15 @@ META = {
             "after the last save the storage accumulated by the incremental saves IS the full dump of the state, so "
             "loading it equals loading a complete snapshot; C10_crash_loses_only_tail - nothing but a save writes, a "
             "crash after a completed save loads exactly that save. C10_dirty_complete_v0_refuted documents repaired "
-            "defect F9 (raiseValidity without setDirty: stored 257 vs live 258). Not proved: that loading a complete "
-            "snapshot reproduces the live state (loadTip/recoverEndorsements re-derivation) - that half is checked by "
-            "the direct oracle and by the model/implementation comparison of load. Direct oracle on the rebuilt "
+            "defect F9 (raiseValidity without setDirty: stored 257 vs live 258). C10_load_blocks_topological - "
+            "loadBlockForward + recoverEndorsements over any parent-before-child order restore exactly the stored "
+            "fields; C10_reload_equiv_partial - for any history and any placement of saves, load of the accumulated "
+            "storage succeeds and yields the tip and every live block's persisted projection (status, payload ids, "
+            "containing endorsements, refcount, parent, height) as of the last save. PARTIAL: two premises about the "
+            "saved state are assumed, not proved for all reachable states (the height sort is a parent-before-child "
+            "order; the stored active chain is ACTIVE and fully valid so that loadTip changes nothing persisted), and "
+            "the rebuilt endorsedBy/block-of-proof lists are not described - those parts are checked by the direct "
+            "oracle and by the model/implementation comparison of load. Direct oracle on the rebuilt "
             "library: for generated histories (forks, reorgs, invalid payloads, invalidate/revalidate, remove, "
             "body-before-parent-body) and EVERY placement of up to 3 save points (sampled for long histories) a fresh "
             "instance loaded from a copy of the storage taken at each save equals the live instance (full observation "
